@@ -96,7 +96,7 @@ func newContractSet() *ContractSet {
 	return &ContractSet{ByFunc: map[string]*Contract{}, Field: map[string]*Contract{}, Ghost: map[string]string{}, Macros: map[string]*Macro{}, ConstGlobals: map[string]bool{}, Protected: map[string]bool{}, FreshFalse: map[string]bool{}, GhostAlias: map[string]string{}}
 }
 
-var reKind = regexp.MustCompile(`^(requires|ensures|modifies|decreases|invariant|assume|let|cover|allocates|alloc|use|postuse|secret|niout)(\[[A-Za-z0-9, ]+\])?(\([A-Za-z0-9_.\-]+\))?\s+(.*)$`)
+var reKind = regexp.MustCompile(`^(requires|ensures|assumed|modifies|decreases|invariant|assume|let|cover|allocates|alloc|use|postuse|secret|niout)(\[[A-Za-z0-9, ]+\])?(\([A-Za-z0-9_.\-]+\))?\s+(.*)$`)
 var reLoop = regexp.MustCompile(`^loop\s+(\d+)\s*:\s*(.*)$`)
 
 // qualify turns a short function name used in a contract file into the ssa
@@ -330,6 +330,11 @@ func (cs *ContractSet) ParseFile(path string, pkg string, external bool) error {
 			case cl.Kind == "requires":
 				cur.Requires = append(cur.Requires, cl)
 			case cl.Kind == "ensures":
+				cur.Ensures = append(cur.Ensures, cl)
+			case cl.Kind == "assumed":
+				// an ensures clause the function is not checked against (callers may use it; listed in the evidence)
+				cl.Kind = "ensures"
+				cl.Assumed = true
 				cur.Ensures = append(cur.Ensures, cl)
 			case cl.Kind == "modifies":
 				cur.Modifies = append(cur.Modifies, cl)
